@@ -53,8 +53,10 @@ def take_baseline(prog: dict, extra: list[str], rerun: bool = True) -> dict[str,
     """Run P (+extra flags) twice; returns the captured state, or a reason string why P is unusable."""
     try:
         b = lane.build_once(prog, prog["main"], extra)
-    except SystemExit as e:
-        return f"options rejected (SystemExit {e.code})"
+    except lane.OptionsRejected:
+        return "flags rejected by process_options"
+    except lane.MypyCrash:
+        return "baseline crashes (INTERNAL ERROR; fixture stubs) - not judged"
     E = b["errors"]
     if E is None:
         return "no BuildManager captured"
@@ -214,7 +216,11 @@ def diff_groups(prefix: str, relation: Any, actual: list[str], expected: list[st
 def check_ignore_run(prog: dict, base: dict, added: dict[int, list[str]], kind: str, warn: str, extra: list[str],
                      stats: Counter) -> list[dict]:
     text = model.annotate(prog["main"], {ln: comment_text(c) for ln, c in added.items()})
-    run = lane.build_once(prog, text, extra)
+    try:
+        run = lane.build_once(prog, text, extra)
+    except lane.MypyCrash:
+        stats["perturbed_runs_crashed (INTERNAL ERROR; not judged)"] += 1
+        return []
     o_main = run["file_options"].get(MAIN) or run["options"]
     pr = model.predict_ignores(base, MAIN, added, unused_reporting_on(o_main))
     if pr.skip:
@@ -346,8 +352,11 @@ def check_disable_run(prog: dict, base: dict, variant: str, c: str, extra: list[
                 f.write(text)
     try:
         run = lane.build_once(prog, prog["main"], extra)
-    except SystemExit as e:
+    except lane.OptionsRejected:
         stats["skipped:disable variant rejected by option processing"] += 1
+        return []
+    except lane.MypyCrash:
+        stats["perturbed_runs_crashed (INTERNAL ERROR; not judged)"] += 1
         return []
     o_main = run["file_options"].get(MAIN) or run["options"]
     iwc = any("ignore-without-code" in en for _d, en in base["file_codes"].values())
